@@ -554,7 +554,7 @@ func runC11R7(c *eng.Ctx, r *eng.RuleCtx) {
 					}
 				}
 			case *ast.SendStmt:
-				if eng.IsField(info, t.Chan, ch) {
+				if fieldOrAccessor(p, info, t.Chan, ch) {
 					n++
 					if !isCrontab(t.Value) {
 						bad++
@@ -575,7 +575,7 @@ func runC11R7(c *eng.Ctx, r *eng.RuleCtx) {
 				lg := p.GraphOfLit(l)
 				sends := func(gn *eng.GNode) bool {
 					st, isS := gn.Node.(*ast.SendStmt)
-					return isS && eng.IsField(info, st.Chan, ch)
+					return isS && fieldOrAccessor(p, info, st.Chan, ch)
 				}
 				r.Check(lg.MustPassToExit(eng.Query{FromEntry: true}, sends) == nil, f.Key+" every activation sends the tick", l.Lit.Pos(), "the scheduled function always sends on ScheduleCh", "the scheduled function can return without sending the tick (a debounce, a filter): a legitimate activation of the crontab produces no task")
 			}
